@@ -140,7 +140,12 @@ async fn run_case(case: Vec<String>) -> String {
     let u: Vec<&str> = case[5].split(':').collect();
     let host = if u[1] == "2" { format!("[{}]", ADDRS[2]) } else { ADDRS[u[1].parse::<usize>().unwrap()].to_string() };
     let port = if u[2] == "-" { String::new() } else { format!(":{}", u[2]) };
-    let uri_text = format!("{}:bob@{}{}", if u[0] == "1" { "sips" } else { "sip" }, host, port);
+    // an optional fourth field: URI parameters as they may accompany the target (transport=..., lr, user=phone)
+    let uparams = match u.get(3) {
+        Some(&"-") | None => String::new(),
+        Some(t) => format!(";{}", t.replace('+', ";")),
+    };
+    let uri_text = format!("{}:bob@{}{}{}", if u[0] == "1" { "sips" } else { "sip" }, host, port, uparams);
     let uri = endpoint.parse_uri(&uri_text).unwrap();
     let before: Vec<usize> = facs
         .iter()
